@@ -12,6 +12,14 @@ from vf import instr
 
 MODULES = ["windpyutils.parallel.own_proc_pools", "windpyutils.buffers"]
 
+# behaviours of the harness workers that a case switches on (set in the case child before any worker is created; inherited by
+# forked workers): end_raises, quota_after_init, functor_forks_a_child
+WORKER_OPTS = {}
+
+
+def _noop():
+    pass
+
 
 class _HMixin:
     def _h_init(self, shared, fault, serial, end_delay, begin_delay, plan):
@@ -61,6 +69,11 @@ class _HMixin:
             raise RuntimeError("injected fault in functor")
         if dur:
             self.sh.nap(dur)
+        if WORKER_OPTS.get("functor_forks_a_child") and idx % 3 == 0:
+            # the functor uses a helper process of its own (fork context) and waits for it
+            hp = multiprocessing.get_context("fork").Process(target=_noop)
+            hp.start()
+            hp.join()
         flags = x[4] if len(x) > 4 else ""
         if flags:
             # twins (equal-but-different items) / exception objects as ordinary results: as in pool_engine._simple_functor
@@ -74,13 +87,20 @@ class _HMixin:
         if self.end_delay and self.items_done:
             self.sh.nap(self.end_delay)        # a slow end(): whoever forgets to join this worker is caught
         self.sh.log("end_exit", wid=self.wid)
+        if WORKER_OPTS.get("end_raises") and self.items_done:
+            raise RuntimeError("injected fault at the end of end()")      # a clean-up hook that fails: the worker is done anyway
 
 
 class HWorker(_HMixin, FunctorWorker):
     """Default (fork) context: the repository's FunctorWorker."""
 
     def __init__(self, shared, quota=math.inf, fault=None, serial=0, end_delay=0, begin_delay=0, plan=None):
-        FunctorWorker.__init__(self, max_chunks_per_worker=quota)
+        if WORKER_OPTS.get("quota_after_init"):
+            # a subclass that calls super().__init__() and sets the documented attribute itself
+            FunctorWorker.__init__(self)
+            self.max_chunks_per_worker = quota
+        else:
+            FunctorWorker.__init__(self, max_chunks_per_worker=quota)
         self._h_init(shared, fault, serial, end_delay, begin_delay, plan)
 
 
